@@ -192,11 +192,26 @@ func runC10(r *mon.Run) {
 			}
 			checkPublicKey(w, name, k, p)
 		}
-		k1, e1 := secec.NewPublicKey(src)
+		in1 := append([]byte{}, src...)
+		k1, e1 := secec.NewPublicKey(in1)
 		check("NewPublicKey", k1, e1)
 		// through SubjectPublicKeyInfo (the envelope itself is C12's business)
-		k2, e2 := secec.ParseASN1PublicKey(oracle.SPKIWrite(src))
+		in2 := oracle.SPKIWrite(src)
+		k2, e2 := secec.ParseASN1PublicKey(in2)
 		check("ParseASN1PublicKey", k2, e2)
+		// the caller reuses / scrubs its input buffers afterwards: the keys are unaffected
+		for j := range in1 {
+			in1[j] ^= 0xa5
+		}
+		for j := range in2 {
+			in2[j] = 0
+		}
+		if e1 == nil && k1 != nil {
+			check("NewPublicKey (after the caller overwrote the input buffer)", k1, e1)
+		}
+		if e2 == nil && k2 != nil {
+			check("ParseASN1PublicKey (after the caller overwrote the input buffer)", k2, e2)
+		}
 	})
 
 	r.Each("c10/from-point", r.N(3000, 100000), func(w *mon.W, i int) {
